@@ -43,6 +43,13 @@ class C03:
         for blk in range(8):
             out.append({"k": "single", "prio": blk})
         out.append({"k": "inject"})
+        # holds refreshed at the last legal moment (0.499 s) over a link whose latency varies between 1 us and 5 ms: a refresh reaches the originator more than 0.5 s after the hold before it
+        for dll in ("j1939-21", "j1939-22"):
+            for holds in ([1], [2], [1, 3]):
+                for lat_s in ([1e-6, 0.005], [0.005, 1e-6]):
+                    for grants in ([1], [2, 255]):
+                        out.append(PS.base_case(dll, "orig", "rts", 4, i=len(out), lat={"S": lat_s, "P": [0.0005]},
+                                                peer={"holds": holds, "hold_gap": 0.499, "grants": grants}))
         return out
 
     def exhaustive(self, tier):
